@@ -1,55 +1,77 @@
 """C23: Monkhorst-Pack mesh detection recovers the mesh.
 
 spec  : MPGrid.tla (transcription of w90files/utility.py get_mp_grid and grid_from_kpoints over exact fractions + the
-        property clauses), MC_MPGrid (every mesh / order / removed / duplicated / shifted input inside the constants)
-bind  : every finished TLC state is one test of the real get_mp_grid, grid_from_kpoints(grid=None),
-        grid_from_kpoints(grid=mesh) and grid_from_kpoints(grid=coarser mesh): return value or exception class compared
-        exactly; seeded random calls (larger meshes up to the supported denominator 100, true random orders, several
-        points removed / duplicated, random shifts) are recorded and validated by TLC against MPGridRec.tla
+        property clauses: a selection / detected grid is returned iff the points lying on the grid are the whole mesh,
+        a returned selection names each mesh point exactly once, a duplicate-free mesh is detected by get_mp_grid),
+        MC_MPGrid (every mesh / order / removed / duplicated / shifted input inside the constants; grid arguments: none,
+        the mesh, a coarser mesh, a grid that is neither)
+bind  : every finished TLC state is one test of the real get_mp_grid, grid_from_kpoints(grid=None / mesh / coarser /
+        other): the STATUS (returned vs rejected, any exception class) must be the one of the state, a returned
+        selection must name each mesh point exactly once (any order, any copy of a repeated point), a detected grid must
+        be the grid; the literal return values of today's code (order of the indices, exception class, get_mp_grid on
+        lists that are not meshes) are compared for information only.  Seeded random calls (larger meshes, several points
+        removed / duplicated, random shifts, arbitrary grid arguments) are recorded and validated by TLC (MPGridRec.tla).
 """
 import copy
 import math
+import os
 import random
+import shutil
 import warnings
+import zlib
 import numpy as np
 
 from .. import tlc, ftable
-from ..common import Report, MachineryError, seed
+from ..common import Report, MachineryError, seed, WORK
 
 PROPS = {
     "C23": dict(level="model_checking",
                 technique="TLC exhaustive on MPGrid.tla (transcription of get_mp_grid / grid_from_kpoints over exact fractions, all Gamma-centred meshes "
-                          "up to the constants in all / keyed orders, with one point removed or duplicated, shifted meshes) + replay of every TLC state on "
-                          "the real functions + TLC validation of recorded random calls",
-                text="TLC enumerates every mesh (n1,n2,n3) inside the constants in every order (all permutations up to 5 points, seeded key orders "
-                     "above), with one point removed or duplicated and with Monkhorst-Pack shifts, computes the return value or exception class of the "
-                     "transcription and checks: complete meshes are detected by both functions, the selection for a given (or coarser) mesh names each "
-                     "mesh point exactly once, duplicated points are counted once, incomplete meshes are rejected with ValueError. Every state is "
-                     "executed on the real functions and compared exactly; random larger inputs are recorded and every clause of MPGridRec is evaluated "
-                     "on them by TLC.",
-                note="coordinates are exact fractions p/DEN passed as correctly rounded floats (and, as a second format, rounded to 8 decimals, the "
-                     "precision get_mp_grid rounds to itself); denominators <= 100 (limit_denominator(100) is exact there)",
+                          "up to the constants in all / keyed orders, with one point removed or duplicated, shifted meshes; grid argument none / mesh / "
+                          "coarser / neither) + replay of every TLC state on the real functions (status and property clauses) + TLC validation of "
+                          "recorded random calls",
+                text="TLC enumerates every mesh (n1,n2,n3) inside the constants (quick: n <= 4, thorough: n <= 6) in every order (all permutations up "
+                     "to 5 points; above that 5 (quick) / 12 (thorough) seeded affine key orders), with one point removed or duplicated and with "
+                     "Monkhorst-Pack shifts, and checks on the transcription: complete meshes are detected by both functions, a selection is returned "
+                     "iff the points on the requested grid are the whole mesh (otherwise it is rejected), a returned selection names each mesh "
+                     "point exactly once, duplicated points are counted once. Every finished state is executed on the real functions: the status "
+                     "(returned / raised, any exception class) must agree and returned values must satisfy the same clauses (any order of the "
+                     "indices). Seeded random records (3-D meshes up to 12 per direction and a few up to 24, denominator 100 only for meshes "
+                     "along one direction, 1-3 points removed / duplicated, random shifts, grid argument = mesh / divisor / arbitrary, given as tuple, "
+                     "list or array) are validated clause by clause by TLC (MPGridRec).",
+                note="coordinates are exact fractions p/DEN in [0,1) passed as correctly rounded floats and, for denominators <= 18, also rounded to 8 "
+                     "decimals (for larger denominators 8-decimal input sits on the code's own rounding edge np.round(k1, 6): excluded); get_mp_grid on "
+                     "lists that are not duplicate-free meshes, exception classes, the order of the selected indices, 6-decimal input and integer "
+                     "shifts of the coordinates are reported as information only (parts conformance_info / numeric_only)",
                 ref="DESIGN.md 3.2"),
 }
 
-INVS = ["InModel", "CompleteDetected", "DuplicateOnce", "IncompleteRejected", "SubmeshOnce", "ReturnedGridHoldsPoints", "ReturnedGridComplete"]
+INVS = ["InModel", "CompleteDetected", "DuplicateOnce", "IncompleteRejected", "SubmeshOnce", "ReturnedGridHoldsPoints", "ReturnedGridComplete",
+        "StatusIsProperty", "SelectionsOnce", "MpDetectsAnyMesh"]
+DEC8_MAXDEN = 18        # 8-decimal input only for denominators up to this (deviation * denominator <= 1e-7)
 
 
-def call(fn, *a, **kw):
-    """-> (exception class name or '', value as list of ints)"""
+def call(rep, site, fn, *a, **kw):
+    """-> (exception class name or '', value as list of ints).  Any exception of the library is a rejection."""
     with warnings.catch_warnings():
         warnings.simplefilter("ignore")
         try:
             r = fn(*a, **kw)
-        except (AssertionError, ValueError, RuntimeError) as ex:
+        except Exception as ex:
             return (type(ex).__name__, [])
-    return ("", [int(x) for x in r])
+    try:
+        return ("", [int(x) for x in r])
+    except Exception as ex:
+        rep.violation(f"{site}:return_type", dict(function=site, returned=repr(r)[:200], error=str(ex)))
+        return ("", [])
 
 
 def floats(pts, den, fmt):
     k = np.array(pts, dtype=float).reshape(-1, 3) / den
     if fmt == "dec8":
         k = np.round(k, 8)
+    elif fmt == "dec6":
+        k = np.round(k, 6)
     return k
 
 
@@ -57,70 +79,155 @@ def res_of(r):
     return (r["err"], [int(x) for x in r["val"]])
 
 
+def on_grid(p, g, den):
+    return all((p[a] * g[a]) % den == 0 for a in range(3))
+
+
+def once(sel, pts, g, den):
+    """the selected indices name each point of the mesh g exactly once (MPGrid.EachMeshPointOnce)"""
+    if any((not 0 <= i < len(pts)) or not on_grid(pts[i], g, den) for i in sel):
+        return False
+    chosen = [pts[i] for i in sel]
+    return len(set(chosen)) == len(chosen) == g[0] * g[1] * g[2]
+
+
+def stable(obj, m):
+    return zlib.crc32(repr(obj).encode()) % m
+
+
 def check(pid, tier):
     rep = Report(pid, tier, "model_checking")
+    tag = f"c23_{os.getpid()}"
+    made = []
+    try:
+        rc = _check(rep, tier, tag, made)
+    except Exception as ex:
+        if rep.violations:
+            print(f"[C23] the check stopped early ({type(ex).__name__}: {str(ex)[:300]}); reporting the violations collected so far")
+            try:
+                return rep.finish()
+            except Exception:
+                pass
+        raise
+    if rc == 0:      # scratch of this process (names carry the pid); kept for inspection after a violation
+        import glob
+        for d in made + glob.glob(os.path.join(WORK, "tlc", f"*{tag}*")) + glob.glob(os.path.join(WORK, "records", f"{tag}*")):
+            shutil.rmtree(d, ignore_errors=True)
+    return rc
+
+
+def _check(rep, tier, tag, made):
     thorough = tier == "thorough"
     rng = random.Random(seed() * 7919 + 23)
     from wannierberri.w90files.utility import get_mp_grid, grid_from_kpoints
     rep.rule("TLC enumerates every Gamma-centred mesh inside (NMAX, MAXPTS) in all permutations (<= 5 points) or seeded key orders, with one "
              "point removed / duplicated and with shifts; a case = one finished TLC state executed on get_mp_grid, grid_from_kpoints(None), "
-             "grid_from_kpoints(mesh), grid_from_kpoints(coarser mesh) with exact comparison of value or exception class, plus seeded random "
-             "recorded calls validated by TLC; distinct by input")
-    rep.assume("coordinates are fractions with denominator <= 100 in [0,1), given as correctly rounded floats or rounded to 8 decimals")
+             "grid_from_kpoints(mesh), grid_from_kpoints(coarser mesh), grid_from_kpoints(other grid): status (returned / raised) as in the state, "
+             "returned values checked against the property clauses (each mesh point once, detected grid), plus seeded random recorded calls "
+             "validated by TLC; distinct by input")
+    rep.assume("coordinates are fractions with denominator <= 100 in [0,1), given as correctly rounded floats or (denominator <= 18) rounded to 8 decimals")
     keys = [1000, 100000] + [1000 * rng.randint(2, 99) + rng.randint(0, 100) for _ in range(10 if thorough else 3)]
     nmax, maxpts = (6, 72) if thorough else (4, 64)
+
     def mkcfg(nm, mp, dedup):
         return (f"SPECIFICATION Spec\nCONSTANTS\n  NMAX = {nm}\n  MAXPTS = {mp}\n  ALLPERM = 5\n"
                 f"  PermKeys = {{{', '.join(str(k) for k in sorted(set(keys)))}}}\n  Shifts = {{2111, 2100, 2001, 3111, 3120}}\n"
                 f"  Dedup = {'TRUE' if dedup else 'FALSE'}\n" + "".join(f"INVARIANT {i}\n" for i in INVS) + "CHECK_DEADLOCK FALSE\n")
     # sensitivity self-test: a selection that does not skip repeated points must be rejected by TLC
-    st0 = tlc.run_tlc("MC_MPGrid.tla", mkcfg(2, 8, False), "c23_mpgrid_v0", workers=2, timeout=900)
-    if not st0.get("violation") or st0["violation"][1] not in ("DuplicateOnce", "SubmeshOnce"):
+    st0 = tlc.run_tlc("MC_MPGrid.tla", mkcfg(2, 8, False), f"{tag}_mpgrid_v0", workers=2, timeout=1800)
+    made.append(st0["meta"])
+    if not st0.get("violation") or st0["violation"][1] not in ("DuplicateOnce", "SubmeshOnce", "StatusIsProperty", "SelectionsOnce"):
         raise MachineryError(f"sensitivity self-test failed: MC_MPGrid with Dedup=FALSE should violate DuplicateOnce, TLC says {st0.get('violation')} {(st0.get('error') or '')[:300]}")
     rep.part("c23_mpgrid_v0", sensitivity_violation=st0["violation"][1])
-    st = ftable.enumerate_states("MC_MPGrid.tla", mkcfg(nmax, maxpts, True), "c23_mpgrid", workers=8, timeout=3000)
+    st = ftable.enumerate_states("MC_MPGrid.tla", mkcfg(nmax, maxpts, True), f"{tag}_mpgrid", workers=4, timeout=3000)
+    made.append(st["meta"])
     ftable.spec_violation(rep, st, "c23_mpgrid")
     rep.add_tlc("c23_mpgrid", st)
     if rep.violations:
         return rep.finish()
     tlc.check_not_vacuous(st, ["Call"], "c23_mpgrid")
     counts = {}
+    info = dict(mp_differs_from_transcription=0, selection_differs_from_transcription=0, exception_class_differs=0)
     ndone = 0
+    nsample = 0
+    DEN = 720
     for s in ftable.dump_states(st):
         if s["pc"] != "done":
             continue
         ndone += 1
         kind, n, pts = s["kind"], tuple(s["n"]), [tuple(p) for p in s["pts"]]
         half = tuple(x // 2 if x % 2 == 0 else x for x in n)
-        fmt = "exact" if ndone % 3 else "dec8"
-        k = floats(pts, 720, fmt)
-        exp = dict(mp=res_of(s["mp"]), none=res_of(s["gnone"]), sel=res_of(s["gsel"]), sub=res_of(s["gsub"]))
-        got = dict(mp=call(get_mp_grid, k), none=call(grid_from_kpoints, k), sel=call(grid_from_kpoints, k, grid=n),
-                   sub=call(grid_from_kpoints, k, grid=half))
+        other = (n[0] + 1, n[1], 2 * n[2])
+        h = stable((kind, n, pts), 6)
+        fmt = "dec8" if h % 3 == 0 else "exact"
+        k = floats(pts, DEN, fmt)
+        grids = dict(mp=None, none=None, sel=n, sub=half, oth=other)
+        exp = dict(mp=res_of(s["mp"]), none=res_of(s["gnone"]), sel=res_of(s["gsel"]), sub=res_of(s["gsub"]), oth=res_of(s["goth"]))
+        kin = k.tolist() if h == 1 else k            # get_mp_grid also accepts lists
+        gsel = list(n) if h == 2 else (np.array(n) if h == 4 else n)      # the grid as list / array / tuple
+        got = dict(mp=call(rep, "get_mp_grid", get_mp_grid, kin), none=call(rep, "grid_from_kpoints", grid_from_kpoints, k),
+                   sel=call(rep, "grid_from_kpoints", grid_from_kpoints, k, grid=gsel),
+                   sub=call(rep, "grid_from_kpoints", grid_from_kpoints, k, grid=half),
+                   oth=call(rep, "grid_from_kpoints", grid_from_kpoints, k, grid=other))
         rep.case((kind, n, tuple(pts)), nontrivial=len(pts) > 1)
-        cls = kind + ":" + ("ok" if exp["mp"][0] == "" else exp["mp"][0])
+        cls = kind + ":" + ("detected" if exp["mp"][0] == "" else "rejected")
         counts[cls] = counts.get(cls, 0) + 1
-        counts["sel:" + (exp["sel"][0] or "ok")] = counts.get("sel:" + (exp["sel"][0] or "ok"), 0) + 1
-        for what, fn in (("mp", "get_mp_grid"), ("none", "grid_from_kpoints:detect"), ("sel", "grid_from_kpoints:select"), ("sub", "grid_from_kpoints:select_coarser")):
-            if got[what] != exp[what]:
-                rep.violation(f"{fn}:{kind}", dict(function=fn, kind=kind, mesh=n, grid_argument={"mp": None, "none": None, "sel": n, "sub": half}[what],
-                                                  kpoints_numerators=pts, denominator=720, float_format=fmt,
-                                                  expected=exp[what], got=got[what]))
-        if ndone <= 2:
+        for w_ in ("sel", "oth"):
+            c_ = w_ + ":" + ("rejected" if exp[w_][0] else "ok")
+            counts[c_] = counts.get(c_, 0) + 1
+        is_mesh = exp["none"][0] == ""                 # StatusIsProperty: gnone is returned iff the points are a mesh
+        nodup = len(set(pts)) == len(pts)
+        names = dict(mp="get_mp_grid", none="grid_from_kpoints:detect", sel="grid_from_kpoints:select", sub="grid_from_kpoints:select_coarser",
+                     oth="grid_from_kpoints:select_other_grid")
+
+        def bad(what, why):
+            rep.violation(f"{names[what]}:{kind}:{why}", dict(function=names[what], kind=kind, mesh=n, grid_argument=grids[what], kpoints_numerators=pts,
+                                                              denominator=DEN, float_format=fmt, why=why, transcription=exp[what], got=got[what]))
+        # get_mp_grid: a duplicate-free Gamma-centred mesh (in any order) must be detected; other lists: information
+        if is_mesh and nodup:
+            if got["mp"] != exp["mp"]:
+                bad("mp", "mesh_not_detected")
+        elif got["mp"] != exp["mp"]:
+            info["mp_differs_from_transcription"] += 1
+        # grid_from_kpoints
+        for what in ("none", "sel", "sub", "oth"):
+            e, g_ = exp[what], got[what]
+            if (e[0] == "") != (g_[0] == ""):
+                bad(what, "accepted_incomplete_mesh" if e[0] else "rejected_complete_mesh")
+                continue
+            if e[0] != g_[0]:
+                info["exception_class_differs"] += 1
+            if e[0] == "":
+                if what == "none":
+                    if g_[1] != e[1]:
+                        bad(what, "wrong_grid")
+                elif not once(g_[1], pts, grids[what], DEN):
+                    bad(what, "not_each_mesh_point_once")
+                elif g_[1] != e[1]:
+                    info["selection_differs_from_transcription"] += 1
+        if nsample < 2 and len(pts) > 1:
+            nsample += 1
             rep.sample(dict(kind=kind, mesh=n, kpoints_over_720=pts[:6], get_mp_grid=exp["mp"], select=exp["sel"]))
     if 2 * ndone != st["distinct"]:
         raise MachineryError(f"{ndone} finished states for {st['distinct']} TLC states")
-    for need in ("complete:ok", "removed:ok", "removed:AssertionError", "dup:ok", "shifted:ok", "shifted:AssertionError", "sel:ValueError", "sel:ok"):
-        if not counts.get(need):
+    for need in ("complete:detected", "removed:detected", "removed:rejected", "dup:detected", "shifted:detected", "shifted:rejected", "sel:rejected", "sel:ok",
+                 "oth:rejected"):
+        if not counts.get(need) and not rep.violations:
             raise MachineryError(f"case class {need} never occurred ({counts})")
     rep.part("replay", **counts)
+    rep.part("conformance_info", **info)
 
     # ---------------- code -> spec: random recorded calls
     recs = []
     nrec = 900 if thorough else 200
+    big = [(16, 16, 1), (20, 10, 2), (24, 24, 1), (1, 16, 16), (12, 12, 4)]
+    nbig = 0
     while len(recs) < nrec:
         r = rng.random()
-        if r < 0.15:      # one-dimensional meshes up to the supported denominator
+        if nbig < (10 if thorough else 3):   # a few larger 3-D meshes
+            n = list(big[nbig % len(big)])
+            nbig += 1
+        elif r < 0.15:      # one-dimensional meshes up to the supported denominator
             n = [1, 1, 1]
             n[rng.randrange(3)] = rng.randint(7, 100)
         elif r < 0.5:
@@ -128,7 +235,7 @@ def check(pid, tier):
         else:
             n = [rng.choice([1, 2, 3, 4, 5, 6, 8, 10, 12]) for _ in range(3)]
         N = n[0] * n[1] * n[2]
-        if N > 400:
+        if N > 600:
             continue
         Q = rng.choice([1, 1, 1, 2, 3])
         den = math.lcm(n[0], n[1], n[2]) * Q
@@ -151,41 +258,95 @@ def check(pid, tier):
                 sh[rng.randrange(3)] = 1
             pts = [tuple((p[a] + sh[a] * (den // (Q * n[a]))) % den for a in range(3)) for p in pts]
         rng.shuffle(pts)
-        which = rng.choice(["none", "mesh", "coarser"])
+        which = rng.choice(["none", "mesh", "coarser", "coarser", "any"])
         grid = []
         if which == "mesh":
             grid = list(n)
         elif which == "coarser":
             grid = [x // rng.choice([d for d in range(1, x + 1) if x % d == 0]) for x in n]
-        k = floats(pts, den, rng.choice(["exact", "exact", "dec8"]))
-        mp = call(get_mp_grid, k)
-        gfk = call(grid_from_kpoints, k, grid=tuple(grid) if grid else None)
+        elif which == "any":      # finer / non-divisor grids: rejected unless the points on it happen to be the whole mesh
+            grid = [max(1, x + rng.choice([-1, 0, 0, 1, x])) for x in n]
+        maxden = max(Q * x for x in n)
+        k = floats(pts, den, rng.choice(["exact", "exact", "dec8"]) if maxden <= DEC8_MAXDEN else "exact")
+        garg = None
+        if grid:
+            garg = rng.choice([tuple(grid), list(grid), np.array(grid)])
+        mp = call(rep, "get_mp_grid", get_mp_grid, k)
+        gfk = call(rep, "grid_from_kpoints", grid_from_kpoints, k, grid=garg)
         recs.append(dict(kind=kind, n=n, DEN=den, pts=[list(p) for p in pts], grid=grid,
                          mp=dict(err=mp[0], val=mp[1]), gfk=dict(err=gfk[0], val=gfk[1])))
         rep.case(("rec", kind, tuple(n), tuple(pts), tuple(grid)))
-    stv, bad = ftable.validate_records("MPGridRec.tla", ftable.REC_CFG, recs, "c23", chunk=300)
+    stv, bad_ = ftable.validate_records("MPGridRec.tla", ftable.REC_CFG, recs, tag, chunk=300)
     rep.add_tlc("c23_records", stv)
     rep.add_traces(len(recs))
-    for i, clauses in bad.items():
+    rinfo = {}
+    outside = []
+    for i, clauses in sorted(bad_.items()):
         r = recs[i]
-        if "in_model" in clauses:
-            raise MachineryError(f"recorded call outside the model: {str(r)[:300]}")
-        fn = "get_mp_grid" if any(c.startswith("mp") or c == "complete_detected" for c in clauses) else "grid_from_kpoints"
-        rep.violation(f"{fn}:recorded:{r['kind']}", dict(record=r, failing_clauses=clauses))
+        hard = [c for c in clauses if not c.startswith("info_")]
+        for c in clauses:
+            if c.startswith("info_"):
+                rinfo[c] = rinfo.get(c, 0) + 1
+        if "in_model" in hard or "kind_consistent" in hard:
+            outside.append((i, hard))
+            continue
+        if hard:
+            fn = "get_mp_grid" if "complete_detected" in hard else "grid_from_kpoints"
+            rep.violation(f"{fn}:recorded:{r['kind']}:{hard[0]}", dict(record=r, failing_clauses=hard))
+    if outside and not rep.violations:
+        raise MachineryError(f"recorded call outside the model: {outside[:3]} {str(recs[outside[0][0]])[:300]}")
+    rep.part("records_info", **rinfo)
     rep.sample(dict(recorded=dict(recs[0], pts=recs[0]["pts"][:6])))
     # binding self-test: corrupted records must be rejected
     badrecs = []
-    r = copy.deepcopy(next(r for r in recs if r["kind"] == "complete" and r["mp"]["err"] == "" and max(r["n"]) > 1))
-    r["mp"]["val"][0] += 1
-    badrecs.append(r)
-    r = copy.deepcopy(next(r for r in recs if r["grid"] and r["gfk"]["err"] == "" and len(r["gfk"]["val"]) > 1))
-    r["gfk"]["val"] = r["gfk"]["val"][:-1]
-    badrecs.append(r)
-    r = copy.deepcopy(next(r for r in recs if r["gfk"]["err"] == "ValueError"))
-    r["gfk"]["err"] = "RuntimeError"
-    badrecs.append(r)
-    _, b2 = ftable.validate_records("MPGridRec.tla", ftable.REC_CFG, badrecs, "c23_selftest")
-    if sorted(b2) != list(range(len(badrecs))):
-        raise MachineryError(f"binding self-test failed: corrupted records accepted {sorted(set(range(len(badrecs))) - set(b2))}")
-    rep.part("binding_selftest", corrupted_records_rejected={str(k_): v for k_, v in b2.items()})
+
+    def pick(pred, what):
+        for r in recs:
+            if pred(r):
+                return copy.deepcopy(r)
+        if rep.violations:
+            return None
+        raise MachineryError(f"binding self-test: no record with {what}")
+    r = pick(lambda r: r["kind"] == "complete" and r["mp"]["err"] == "" and max(r["n"]) > 1, "a detected complete mesh")
+    if r is not None:
+        r["mp"]["val"][0] += 1
+        badrecs.append((r, "complete_detected"))
+    r = pick(lambda r: r["grid"] and r["gfk"]["err"] == "" and len(r["gfk"]["val"]) > 1, "a returned selection")
+    if r is not None:
+        r["gfk"]["val"] = r["gfk"]["val"][:-1]
+        badrecs.append((r, "each_point_once"))
+    r = pick(lambda r: r["grid"] and r["gfk"]["err"] == "" and len(r["gfk"]["val"]) > 1, "a returned selection")
+    if r is not None:
+        r["gfk"]["val"][1] = r["gfk"]["val"][0]
+        badrecs.append((r, "each_point_once"))
+    r = pick(lambda r: r["gfk"]["err"] != "", "a rejected call")
+    if r is not None:      # a rejected incomplete mesh reported as accepted
+        r["gfk"] = dict(err="", val=list(range(len(r["pts"]))) if r["grid"] else list(r["n"]))
+        badrecs.append((r, "status_is_property"))
+    if badrecs:
+        _, b2 = ftable.validate_records("MPGridRec.tla", ftable.REC_CFG, [b for b, _ in badrecs], f"{tag}_selftest")
+        missed = [c for j, (_, c) in enumerate(badrecs) if c not in b2.get(j, [])]
+        if missed:
+            raise MachineryError(f"binding self-test failed: corrupted records accepted (expected failing clauses {missed}, TLC says {b2})")
+        rep.part("binding_selftest", corrupted_records_rejected={str(k_): v for k_, v in b2.items()})
+    shutil.rmtree(os.path.join(WORK, "records", tag), ignore_errors=True)
+    shutil.rmtree(os.path.join(WORK, "records", f"{tag}_selftest"), ignore_errors=True)
+
+    # ---------------- numeric only (information): other float formats and unreduced coordinates
+    num = dict(dec6_detected=0, dec6_not_detected=0, shifted_by_integers_same=0, shifted_by_integers_differs=0, near_one_same=0, near_one_differs=0)
+    for _ in range(60):
+        n = [rng.choice([1, 2, 3, 4, 5, 6, 8, 10, 12]) for _ in range(3)]
+        den = math.lcm(*n)
+        mesh = [(i * (den // n[0]), j * (den // n[1]), l * (den // n[2])) for i in range(n[0]) for j in range(n[1]) for l in range(n[2])]
+        rng.shuffle(mesh)
+        ref = call(rep, "get_mp_grid", get_mp_grid, floats(mesh, den, "exact"))
+        d6 = call(rep, "get_mp_grid", get_mp_grid, floats(mesh, den, "dec6"))
+        num["dec6_detected" if d6 == ref else "dec6_not_detected"] += 1
+        k = floats(mesh, den, "exact")
+        ks = k + np.array([[rng.randint(-2, 2) for _ in range(3)] for _ in mesh])
+        num["shifted_by_integers_same" if call(rep, "get_mp_grid", get_mp_grid, ks) == ref else "shifted_by_integers_differs"] += 1
+        k1 = k.copy()
+        k1[k1 == 0] = rng.choice([0.999999999, 1e-10])
+        num["near_one_same" if call(rep, "get_mp_grid", get_mp_grid, k1) == ref else "near_one_differs"] += 1
+    rep.part("numeric_only", **num)
     return rep.finish()
